@@ -295,7 +295,11 @@ macro_rules! run_script {
         let mut mirror = None;
         let mut manual = None;
         let mut conn_keep = None;
-        for (i, op) in ops.iter().enumerate() {
+        // position ops.len() is "after the last operation" (the collection may already be done then)
+        for i in 0..=ops.len() {
+            if i == ops.len() && sub_at != i {
+                break;
+            }
             if i == sub_at {
                 let s1 = if incr { obs.subscribe_incremental(buffer) } else { obs.subscribe(buffer) };
                 let s1 = if remote {
@@ -318,13 +322,15 @@ macro_rules! run_script {
                 mirror = Some(s1.mirror(max_size));
                 manual = Some(s2);
             }
-            tr(json!({"ev": "robs_op", "op": op}));
-            let r = std::panic::catch_unwind(std::panic::AssertUnwindSafe(|| $apply(&mut obs, op)));
-            if r.is_err() {
-                tr(json!({"ev": "robs_panic", "op": op}));
-                break;
+            if let Some(op) = ops.get(i) {
+                tr(json!({"ev": "robs_op", "op": op}));
+                let r = std::panic::catch_unwind(std::panic::AssertUnwindSafe(|| $apply(&mut obs, op)));
+                if r.is_err() {
+                    tr(json!({"ev": "robs_panic", "op": op}));
+                    break;
+                }
+                tr(json!({"ev": "robs_state", "obs": $obs_json(&obs), "done": $is_done(&obs)}));
             }
-            tr(json!({"ev": "robs_state", "obs": $obs_json(&obs), "done": $is_done(&obs)}));
             for _ in 0..(if remote { 120 } else { 6 }) {
                 settle().await;
             }
@@ -436,20 +442,25 @@ async fn list_script(script: &Value) {
     let max_size = script["max_size"].as_u64().unwrap_or(1000) as usize;
     let mut mirror = None;
     let mut manual = None;
-    for (i, op) in ops.iter().enumerate() {
+    for i in 0..=ops.len() {
+        if i == ops.len() && sub_at != i {
+            break;
+        }
         if i == sub_at {
             tr(json!({"ev": "robs_sub", "mode": "incr", "at": i, "initial": [], "has_initial": false}));
             mirror = Some(obs.subscribe().mirror(max_size));
             manual = Some(obs.subscribe());
         }
-        tr(json!({"ev": "robs_op", "op": op}));
-        match op["o"].as_str().unwrap_or("") {
-            "push" => obs.push(b(op, "v")),
-            "done" => obs.done(),
-            _ => {}
+        if let Some(op) = ops.get(i) {
+            tr(json!({"ev": "robs_op", "op": op}));
+            match op["o"].as_str().unwrap_or("") {
+                "push" => obs.push(b(op, "v")),
+                "done" => obs.done(),
+                _ => {}
+            }
+            let contents: Vec<u8> = obs.borrow().await.iter().copied().collect();
+            tr(json!({"ev": "robs_state", "obs": contents, "done": obs.is_done()}));
         }
-        let contents: Vec<u8> = obs.borrow().await.iter().copied().collect();
-        tr(json!({"ev": "robs_state", "obs": contents, "done": obs.is_done()}));
         for _ in 0..8 {
             settle().await;
         }
@@ -480,4 +491,163 @@ async fn list_script(script: &Value) {
     drop(manual);
     drop(obs);
     settle().await;
+}
+
+// ------------------------------------------------------------------------------------------------ concurrent chain
+// observable -> mirror M1 -> (subscribe at a random moment, while events are being applied and readers hold M1) -> M2.
+// Every M2 must end up equal to the final contents of the observable: the snapshot and the event subscription of
+// a mirror have to be taken atomically.
+
+macro_rules! run_chain {
+    ($seed:expr, $obs:expr, $mutate:expr, $obs_json:expr, $mir_json:expr) => {{
+        let seed: u64 = $seed;
+        let mut rng = Rng::new(seed ^ 0xC4A1);
+        let mut obs = $obs;
+        let incr1 = rng.chance(1, 2);
+        let s1 = if incr1 { obs.subscribe_incremental(256) } else { obs.subscribe(256) };
+        let m1 = std::sync::Arc::new(s1.mirror(1000));
+        let mut handles: Vec<tokio::task::JoinHandle<()>> = Vec::new();
+        let nops = rng.range(8, 20);
+        let mut r0 = Rng::new(seed * 5 + 1);
+        handles.push(spawn_d(1, async move {
+            for i in 0..nops {
+                $mutate(&mut obs, &mut r0, i as u8 + 1);
+                tr(json!({"ev": "chain_op", "i": i, "obs": $obs_json(&obs)}));
+                yields(r0.below(5)).await;
+            }
+            obs.done();
+            tr(json!({"ev": "chain_final", "obs": $obs_json(&obs)}));
+            // keep the observable alive until every mirror has caught up
+            yields(400).await;
+        }));
+        // readers that hold the mirror's read guard across suspension points
+        for v in 0..rng.range(1, 2) {
+            let m = m1.clone();
+            let mut r = Rng::new(seed * 5 + 10 + v);
+            handles.push(spawn_d(1, async move {
+                for _ in 0..30 {
+                    match m.borrow().await {
+                        Ok(g) => {
+                            yields(r.range(1, 5)).await;
+                            drop(g);
+                        }
+                        Err(_) => return,
+                    }
+                    yields(r.below(3)).await;
+                }
+            }));
+        }
+        for j in 0..rng.range(1, 3) {
+            let m = m1.clone();
+            let mut r = Rng::new(seed * 5 + 20 + j);
+            let incr = rng.chance(1, 2);
+            handles.push(spawn_d(1, async move {
+                yields(r.below(40)).await;
+                tr(json!({"ev": "chain_sub_start", "sub": j, "incr": incr}));
+                let sub = if incr { m.subscribe_incremental(256).await } else { m.subscribe(256).await };
+                let sub = match sub {
+                    Ok(s) => s,
+                    Err(e) => {
+                        tr(json!({"ev": "chain_mirror", "sub": j, "contents": [], "done": false, "err": format!("{e:?}")}));
+                        return;
+                    }
+                };
+                tr(json!({"ev": "chain_sub_done", "sub": j}));
+                let mut m2 = sub.mirror(1000);
+                loop {
+                    match m2.borrow_and_update().await {
+                        Ok(g) if g.is_done() => {
+                            tr(json!({"ev": "chain_mirror", "sub": j, "contents": $mir_json(&*g), "done": true, "err": ""}));
+                            return;
+                        }
+                        Ok(g) => drop(g),
+                        Err(e) => {
+                            tr(json!({"ev": "chain_mirror", "sub": j, "contents": [], "done": false, "err": format!("{e:?}")}));
+                            return;
+                        }
+                    }
+                    m2.changed().await;
+                }
+            }));
+        }
+        let left = wait_tasks(&mut handles, &[], 3000).await;
+        tr(json!({"ev": "chain_end", "pending": left}));
+        for h in handles {
+            h.abort();
+        }
+        drop(m1);
+        settle().await;
+    }};
+}
+
+pub async fn chain_scenario(seed: u64, coll: u64) {
+    let coll = ["vec", "deque", "map", "set"][(if coll >= 4 { seed % 4 } else { coll }) as usize];
+    tr(json!({"ev": "reset", "seed": seed, "wl": "robs_chain", "coll": coll}));
+    install_spawn_policy(seed, 1, 3);
+    match coll {
+        "vec" => run_chain!(
+            seed,
+            ObservableVec::<u8>::new(),
+            |o: &mut ObservableVec<u8>, r: &mut Rng, v: u8| match r.below(6) {
+                0 if !o.is_empty() => {
+                    o.pop();
+                }
+                1 if !o.is_empty() => {
+                    o.remove(0);
+                }
+                2 => o.insert(0, v),
+                _ => o.push(v),
+            },
+            |o: &ObservableVec<u8>| json!(o.iter().copied().collect::<Vec<u8>>()),
+            |c: &Vec<u8>| json!(c)
+        ),
+        "deque" => run_chain!(
+            seed,
+            ObservableVecDeque::<u8>::new(),
+            |o: &mut ObservableVecDeque<u8>, r: &mut Rng, v: u8| match r.below(6) {
+                0 if !o.is_empty() => {
+                    o.pop_front();
+                }
+                1 if !o.is_empty() => {
+                    o.pop_back();
+                }
+                2 => o.push_front(v),
+                3 => {
+                    let n = o.len();
+                    o.insert(n, v)
+                }
+                _ => o.push_back(v),
+            },
+            |o: &ObservableVecDeque<u8>| json!(o.iter().copied().collect::<Vec<u8>>()),
+            |c: &std::collections::VecDeque<u8>| json!(c.iter().copied().collect::<Vec<u8>>())
+        ),
+        "map" => run_chain!(
+            seed,
+            ObservableHashMap::<u8, u8>::new(),
+            |o: &mut ObservableHashMap<u8, u8>, r: &mut Rng, v: u8| match r.below(4) {
+                0 => {
+                    o.remove(&(r.below(4) as u8));
+                }
+                _ => {
+                    o.insert(r.below(4) as u8, v);
+                }
+            },
+            |o: &ObservableHashMap<u8, u8>| map_json(o.iter()),
+            |c: &std::collections::HashMap<u8, u8>| map_json(c.iter())
+        ),
+        _ => run_chain!(
+            seed,
+            ObservableHashSet::<Keyed>::new(),
+            |o: &mut ObservableHashSet<Keyed>, r: &mut Rng, v: u8| match r.below(4) {
+                0 => {
+                    o.remove(&Keyed { k: r.below(4) as u8, p: 0 });
+                }
+                _ => {
+                    o.replace(Keyed { k: r.below(4) as u8, p: v });
+                }
+            },
+            |o: &ObservableHashSet<Keyed>| set_json(o.iter()),
+            |c: &std::collections::HashSet<Keyed>| set_json(c.iter())
+        ),
+    }
 }
